@@ -288,3 +288,15 @@ func (f *FlushCtl) Step() bool {
 	pending = f.feed.Step(1) || pending
 	return pending || f.Active()
 }
+
+type retrHook struct{ f func(m sim.Msg) }
+
+func (h retrHook) Func(ctx sim.HookCtx) {
+	if ctx.Pos == sim.HookPosPortMsgRetrieveIncoming {
+		h.f(ctx.Item.(sim.Msg))
+	}
+}
+
+// OnRetrieveIncoming calls f at the instant the component takes a message out
+// of the incoming buffer of one of its ports (i.e. accepts it).
+func OnRetrieveIncoming(p sim.Port, f func(m sim.Msg)) { p.AcceptHook(retrHook{f}) }
